@@ -814,10 +814,7 @@ class CSemantics:
                 # converted to the type of E1 afterwards. The right hand
                 # side is brought to the type of the operation, the code
                 # generator converts the left operand to and from it.
-                if lhs.typ.is_promotable:
-                    op_typ = self.int_type
-                else:
-                    op_typ = lhs.typ
+                op_typ = self.promoted_type(lhs.typ)
                 rhs = self.promote(rhs)
                 if op not in ["<<=", ">>="]:
                     op_typ = self.get_common_type(op_typ, rhs.typ, location)
@@ -1285,16 +1282,24 @@ class CSemantics:
         to int type before performing the operation.
         """
         if expr.typ.is_promotable:
-            # An int is taken if it can represent all values of the
-            # original type, otherwise an unsigned int (think of
-            # unsigned short on a target with 16 bits int).
-            if self.context.limit_max(expr.typ) <= self.context.limit_max(
+            expr = self.coerce(expr, self.promoted_type(expr.typ))
+        return expr
+
+    def promoted_type(self, typ):
+        """Determine the type after integer promotion.
+
+        An int is taken if it can represent all values of the
+        original type, otherwise an unsigned int (think of
+        unsigned short on a target with 16 bits int).
+        """
+        if typ.is_promotable:
+            if self.context.limit_max(typ) <= self.context.limit_max(
                 self.int_type
             ):
-                expr = self.coerce(expr, self.int_type)
+                typ = self.int_type
             else:
-                expr = self.coerce(expr, self.get_type(["unsigned", "int"]))
-        return expr
+                typ = self.get_type(["unsigned", "int"])
+        return typ
 
     def equal_types(self, typ1, typ2):
         """Compare two types for equality."""
